@@ -161,11 +161,43 @@ Definition C14_sticky_balanced_full : Prop :=
     ids_nodup ms -> prev_ok ppt ms prev -> NoDup (map snd st0) ->
     ctl_run ppt ms prev st0 assigns reassigns obs = Some r -> kip54_balanced ms (cr_final r).
 
+(* Without [prev_ok] the statement is false and the real executor exhibits it (finding F3,
+   corpus/C14/stale_claimant.json case 3): t0 has 4 partitions, t1 none; C0 [t0] claims t0-0
+   (generation 2), C1 [t1] still claims t0-0 (generation 1), C2 [t0] claims t0-1,2,3, C3 [t0] is
+   new.  The loop moves t0-1 to C3 (balanced), but balance() restores the prebalance copy —
+   the score of the balanced state counts a phantom empty entry for C1 — and returns
+   C2 = {t0-1,2,3}, C3 = {}. *)
+Definition C14_sticky_balanced_any_prev : Prop :=
+  forall ppt ms prev st0 assigns reassigns obs r,
+    ids_nodup ms -> NoDup (map snd st0) ->
+    ctl_run ppt ms prev st0 assigns reassigns obs = Some r -> kip54_balanced ms (cr_final r).
+
+Theorem c14_sticky_balanced_any_prev_refuted : ~ C14_sticky_balanced_any_prev.
+Proof.
+  intros H.
+  pose (ppt := [(0, Some 4); (1, Some 0)]).
+  pose (ms := [(0, [0]); (1, [1]); (2, [0]); (3, [0])]).
+  pose (claims := [(0, 2%Z, [(0, 0)]); (1, 1%Z, [(0, 0)]); (2, 2%Z, [(0, 1); (0, 2); (0, 3)]);
+                   (3, (-1)%Z, [])]).
+  pose (reassigns := [(((0, 1), 3), (0, 1))]).
+  destruct (ctl_run ppt ms (snd (init_current claims)) (fst (init_current claims)) [] reassigns true)
+    as [r|] eqn:E; [|vm_compute in E; discriminate].
+  assert (Hi : ids_nodup ms).
+  { unfold ids_nodup. simpl. repeat (constructor; [simpl; intuition discriminate|]). constructor. }
+  assert (Hk : kip54_balanced ms (cr_final r)).
+  { apply (H ppt ms (snd (init_current claims)) (fst (init_current claims)) [] reassigns true r); auto.
+    apply nodup_tp_b_spec. vm_compute. reflexivity. }
+  apply (kip54_balanced_b_spec ms) in Hk; auto.
+  vm_compute in E. inversion E; subst r. vm_compute in Hk. discriminate.
+Qed.
+Print Assumptions c14_sticky_balanced_any_prev_refuted.
+
 (* Proved part: the state in which the reassignment loop stops is KIP-54 balanced (exit via
    `_is_balanced()` or via a pass without a trigger), hence so is the result whenever the
    prebalance copy is not restored.  Missing: that `balance()` never restores an unbalanced
-   prebalance copy (the score comparison is not shown to imply it).  The bounded enumeration
-   found no input where the real code returns an unbalanced assignment. *)
+   prebalance copy (the score comparison is not shown to imply it).  With [prev_ok] neither the
+   exhaustive bounded enumeration nor the random search found an input where the real code
+   returns an unbalanced assignment; without it see c14_sticky_balanced_any_prev_refuted. *)
 Theorem c14_sticky_balanced_partial : forall ppt ms prev st0 assigns reassigns obs r,
   ids_nodup ms -> prev_ok ppt ms prev -> NoDup (map snd st0) ->
   ctl_run ppt ms prev st0 assigns reassigns obs = Some r ->
